@@ -412,3 +412,36 @@ func run(in []byte) (*reg.Result, error) {
 	res.Distinct = len(inp.Cases)
 	return res, nil
 }
+
+// ---------------------------------------------------------------- cache seeding for the CLI stage
+
+type seedModule struct {
+	Name   string            `json:"name"`   // registry/owner/module
+	Commit string            `json:"commit"` // uuid
+	Files  map[string]string `json:"files"`
+}
+type seedInput struct {
+	CacheDir string       `json:"cacheDir"`
+	Modules  []seedModule `json:"modules"`
+	// Helpers are modules that only make the seeded ones self-contained for digest computation; they are not stored.
+	Helpers []seedModule `json:"helpers"`
+}
+
+func init() { reg.Register("cache-seed", runSeed) }
+
+// runSeed stores module data and commits in a buf cache directory (v3 layout) with the real stores and reports
+// the pins (commit, digest) for a buf.lock.
+func runSeed(in []byte) (*reg.Result, error) {
+	var inp seedInput
+	if err := reg.Decode(in, &inp); err != nil {
+		return nil, err
+	}
+	ctx := context.Background()
+	pins, err := seedCache(ctx, inp)
+	if err != nil {
+		return nil, err
+	}
+	res := &reg.Result{}
+	res.SetExtra("pins", pins)
+	return res, nil
+}
